@@ -11,6 +11,10 @@
 
   Objects whose inspection raises are inside the domain: the guards of the code (C06) make every heap benign.
 
+  `c07_dangling_only_locals` is what the check's known-finding predicate rests on: on a case that binds a frame's locals dict
+  to a name or watch, the only objection the identity oracle may have is a dangling reference made for the locals dict of a
+  collected frame (single frame, or another frame of the chain: stream `frame-locals`); anything else is a violation.
+
   Modelled assumption: distinct live objects have distinct `id()` and a recorded object stays alive while the cache is
   in use — the second half is what `hold()` establishes in the code (`c07_ids_stable`, re-checked on every run).
 -/
@@ -18,6 +22,7 @@ import DeepModel.Proofs.CollectorSnap
 import DeepModel.Proofs.CollectorBenign
 import DeepModel.Proofs.CollectorExamples
 import DeepModel.Proofs.CollectorDangling
+import DeepModel.Proofs.CollectorDeferred
 
 namespace C07
 open Heap Collector Extracted.Collector
@@ -254,6 +259,24 @@ theorem c07_closed_refuted : ¬ (∀ (H : Heap) (a : ActionIn) (s : Snapshot), c
       exact ⟨s, rfl, key.1, key.2⟩
   obtain ⟨s, hs, hn, hm⟩ := h1
   exact hn ((hall _ _ s hs).1 _ hm)
+
+/-- **deferred snapshots keep one identity** — a snapshot completed later by its callback (stage line_capture /
+    method_capture) with the returned / raised value, for every event and value: one entry per object and per id, same object ⇔
+    same id across frame, watches and the captured value (a returned local is a back reference, not a second entry), and the
+    only reference that can dangle is one made for a collected frame's locals dict. -/
+theorem c07_deferred_identity (H : Heap) (a : ActionIn) (event : String) (value : ObjId) (s : Snapshot)
+    (h : deferredSnapshot H a event value = .ok s) :
+    ((∀ o, (s.table.filter (fun e => e.obj = o)).length ≤ 1) ∧ (∀ v, (s.table.filter (fun e => e.vid = v)).length ≤ 1)) ∧
+    (∀ r1 ∈ snapRefs s, ∀ r2 ∈ snapRefs s, (r1.1 = r2.1 ↔ r1.2 = r2.2)) ∧
+    (∀ r ∈ snapRefs s, r.2 ∈ s.table.map (·.vid) ∨ r.1 ∈ localsOf a.frames) := by
+  obtain ⟨ws, hw⟩ := deferred_is_collect H a event value
+  rw [hw] at h
+  exact ⟨c07_once H ⟨a.limits, a.frames, ws⟩ s h, c07_same_object_same_id H ⟨a.limits, a.frames, ws⟩ s h,
+    c07_dangling_only_locals H ⟨a.limits, a.frames, ws⟩ s h⟩
+
+/-- non-vacuity: `a = []; a.append(a); b = "hello world"`, the line returns `a`: the captured value reuses id 2 of the local -/
+example : (match deferredSnapshot Ex.selfList ⟨⟨40, 1024, 10, 5⟩, Ex.frame0, []⟩ "return" 1 with
+    | .ok s => (s.table.map (·.vid), s.watches.map (·.vid)) | .failed _ => ([], [])) = ([2, 3], [some 2]) := by decide
 
 /-! ### cycles -/
 
